@@ -684,6 +684,13 @@ class Ev:
                 return cv.fn if isinstance(cv, StaticV) else cv
         if isinstance(v, bool) and name in ("any", "all", "item"):
             return BoundLib("identity_method", v)
+        if isinstance(v, ArrV) and name in ("any", "all") and not v.batch and all(is_sym(c) and c.is_number for c in list(v.cells.values()) + [v.fill]):
+            # a small array of plain numbers: any() / all() of their truth values
+            vals = [v.get(key) for key in itertools.product(*[range(d) for d in v.shape])]
+            return BoundLib("identity_method", (any if name == "any" else all)(c != 0 for c in vals))
+        if is_sym(v) and name == "free_symbols" and getattr(self, "sympy_objects", False):
+            t = Tup(sorted(v.free_symbols, key=str), "set")
+            return t
         if isinstance(v, str) and name in STR_METHODS:
             return BoundLib(f"str.{name}", v)
         if isinstance(v, PairList) and name in ("items", "keys", "values"):
@@ -1437,6 +1444,8 @@ class Ev:
                 r = a in b
             elif isinstance(b, Tup) and not b.items:
                 r = False
+            elif isinstance(b, Tup) and getattr(self, "sympy_objects", False) and is_sym(a) and all(is_sym(i) for i in b.items):
+                r = any(a == i for i in b.items)            # sympy expressions as objects: equal when structurally the same
             elif isinstance(b, Tup) and const(a) and any(const(i) and py(a) == py(i) for i in b.items):
                 r = True            # structurally the same value as a member: equal whatever the other members are
             else:
@@ -3110,37 +3119,37 @@ def lib_set_method(name):
     def f(ev, a, k, n, mod):
         me = a[0]
         others = [ev.iterate(o, n, mod) for o in a[1:]]
-        keys = lambda items: [hkey(i) for i in items]
+        keys = lambda items: [skey(i) for i in items]
         if name in ("union", "update"):
             out = list(me.items)
             for o in others:
                 for i in o:
-                    if hkey(i) not in keys(out):
+                    if skey(i) not in keys(out):
                         out.append(i)
             if name == "update":
                 me.items[:] = out
                 return None
             return Tup(out, "set")
         if name == "intersection":
-            out = [i for i in me.items if all(hkey(i) in keys(o) for o in others)]
+            out = [i for i in me.items if all(skey(i) in keys(o) for o in others)]
             return Tup(out, "set")
         if name == "difference":
-            return Tup([i for i in me.items if not any(hkey(i) in keys(o) for o in others)], "set")
+            return Tup([i for i in me.items if not any(skey(i) in keys(o) for o in others)], "set")
         if name == "symmetric_difference":
             o = others[0]
-            return Tup([i for i in me.items if hkey(i) not in keys(o)] + [i for i in o if hkey(i) not in keys(me.items)], "set")
+            return Tup([i for i in me.items if skey(i) not in keys(o)] + [i for i in o if skey(i) not in keys(me.items)], "set")
         if name == "issubset":
-            return all(hkey(i) in keys(others[0]) for i in me.items)
+            return all(skey(i) in keys(others[0]) for i in me.items)
         if name == "issuperset":
-            return all(hkey(i) in keys(me.items) for i in others[0])
+            return all(skey(i) in keys(me.items) for i in others[0])
         if name == "isdisjoint":
-            return not any(hkey(i) in keys(others[0]) for i in me.items)
+            return not any(skey(i) in keys(others[0]) for i in me.items)
         if name == "add":
-            if hkey(a[1]) not in keys(me.items):
+            if skey(a[1]) not in keys(me.items):
                 me.items.append(a[1])
             return None
         if name in ("discard", "remove"):
-            hit = [i for i in me.items if hkey(i) == hkey(a[1])]
+            hit = [i for i in me.items if skey(i) == skey(a[1])]
             if not hit and name == "remove":
                 raise RaisedV("KeyError")
             for i in hit:
@@ -3204,7 +3213,7 @@ def lib_repr(ev, a, k, n, mod):
             return ("int", int(v)) if v.is_Integer else ("float", sp.srepr(v))
         if isinstance(v, float):
             return ("float", repr(v))
-        return ("key", hkey(v))
+        return ("key", skey(v))
     v = a[0]
     if isinstance(v, str):
         return repr(v)
